@@ -169,16 +169,33 @@ def r15_2(chk, mod):
                 full = True
         chk.ob("R15.2", MOD, q, "the numeric branch is taken only when the number regex matched the whole string", full,
                node=e.node, fingerprint="fullmatch", found=[f"{'' if p else 'not '}{c}" for c, p in e.guards])
-    # number = groups[0], uncertainty = groups[-1]
-    num = unc = None
+    # number = groups[0], uncertainty = groups[-1]: the text handed to int() / float() is group 1, the text whose parentheses are stripped
+    # is the last group (by -1, or by its number when that is the number of groups of the pattern)
+    import re._parser as _sre
+    ngroups = _sre.parse(regex_literal(mod, "NUM_ERR_REGEX")[0]).state.groups - 1
+
+    def group_index(t):
+        """k for  <match>.groups()[k]  (normalised: -1 for the last group), None for anything else"""
+        a = t.as_atom()
+        if not (a and a[0] == "sub" and len(a[2]) == 1 and a[2][0].const_value() is not None and a[1].key().endswith(".groups()")
+                and ".match(" in a[1].key()):
+            return None
+        k = int(a[2][0].const_value())
+        return -1 if k in (-1, ngroups - 1) else k
+    num_idx, unc_idx = set(), set()
     for e in ev.events:
-        if e.kind == "assign" and e.name == "number" and num is None:
-            num = e.value
-        if e.kind == "assign" and e.name == "uncertainty":
-            unc = e.value
+        if e.kind != "call" or e.value is None:
+            continue
+        a = e.value.as_atom()
+        if a and call_name(a) in ("int", "float") and len(a[2]) == 1 and group_index(a[2][0]) is not None:
+            num_idx.add(group_index(a[2][0]))
+        if a and call_name(a) == ".strip" and a[2] and string_value(a[2][0]) == "()":
+            unc_idx.add(group_index(a[1].as_atom()[1]))
+    num = sorted(num_idx, key=str)
+    unc = sorted(unc_idx, key=str)
     chk.ob("R15.2", MOD, q, "the number is group 1 and the uncertainty the last group of the match",
-           num is not None and num.key().endswith(".groups()[0]") and unc is not None and unc.key().endswith(".groups()[-1]"),
-           found=f"{num} / {unc}")
+           num_idx == {0} and unc_idx == {-1},
+           found=f"converted: groups {num} / parentheses stripped from: groups {unc} (pattern has {ngroups} groups)")
     strip_ok = any('.strip(\'()\')' in e.value.key() for e in ev.returns)
     chk.ob("R15.2", MOD, q, "the uncertainty is stripped of its parentheses before conversion", strip_ok)
     # regex structure: last group is an optional parenthesised run of digits
@@ -299,7 +316,8 @@ def r15_3(chk, mod):
         if r.value.key() == "True":
             # if " " in string: return True
             has_space = has_space or any(pol and c.as_atom() and c.as_atom()[0] == "in" and string_value(c.as_atom()[1]) == " " for c, pol in r.guards)
-        elif ra and ra[0] == "and":
+        elif ra and ra[0] in ("and", "or"):
+            # `" " in s and <no quote char>` / `<reserved start> or " " in s` (the quote-char case answered before): the blank decides
             has_space = has_space or any(x.as_atom() and x.as_atom()[0] == "in" and string_value(x.as_atom()[1]) == " " for x in ra[1])
         elif ra and ra[0] == "in":
             has_space = has_space or string_value(ra[1]) == " "
